@@ -17,7 +17,8 @@ MANIFEST = dict(
                 "module over-approximated.  Trusted: cbmc 6.11 + SAT back end, goto-cc, the recorders in harness/C13, uthash "
                 "list model, native gcc only for listing table entries (list proven complete by CBMC).  Known finding: cpu.prv "
                 "types 1,2,3 are not declared in cpu.pcf (excluded by signature, confirmed by its own query).  Outside: byte-exact "
-                "text, .cfg copying, PCF colour section, breakdown and mark traces, event sequences, >2 channels per prv."),
+                "text, .cfg copying, PCF colour section, values shown by the breakdown trace (its rows / row names / event type are covered by "
+                "breakdown_rows_* for global CPU lists of up to 9 CPUs in 1-4 looms) and mark traces, event sequences, >2 channels per prv."),
     technique=("CBMC 6.11 bounded symbolic execution of the real C units; fprintf/fopen/fseek/fclose, prv_register, pcf_add_*, "
                "prf_add, chan_* replaced by recording stubs inside the harness TU; independent reference oracles; unwinding "
                "assertions; -DWITNESS reachability twins; native ASan replay of counterexamples"))
@@ -153,6 +154,34 @@ def obligations(tier, sc):
                       out="the contents of the type tables (task_type_labels obligation); model_<m>_finish calling finish_pvt for both traces (read)",
                       oracle="task_create_pcf_types is called exactly once for every process of the system, with the task-type pcf type of the requested trace",
                       assumptions=["recorder_find_pvt / pvt_get_pcf / pcf_find_type / task_create_pcf_types are recorders"])))
+
+    # ---- rows of the <model>-breakdown trace: declared = physical CPUs of ALL looms, registered rows within it
+    for m in ("nosv", "nanos6"):
+        obs.append(Obligation(
+            name="breakdown_rows_%s" % m, harness="C13/breakdown_rows.c", defines=["M_%s" % m, "MAXN=9"],
+            srcs=["src/emu/extend.c"], incdirs=UT, native_cflags=NOLINK, unwind=11, timeout=600,
+            desc=dict(functions=["model_%s_breakdown_create" % m, "model_%s_breakdown_connect" % m, "model_%s_breakdown_finish" % m,
+                                 "create_cpu", "connect_cpu"] + (["check_thread_metadata"] if m == "nosv" else []) +
+                                ["extend_set", "extend_get"],
+                      symbolic="length n of the global CPU list (2..9, case-split: constant per path); which of the n CPUs are loom virtual CPUs "
+                               "(every pattern system.c can build: each loom >= 1 physical CPU followed by its vCPU, i.e. 1..4 looms and every split of "
+                               "up to 8 physical CPUs among them, including loom A = 2 CPUs + vCPU, loom B = 1 CPU + vCPU); -b given or not; "
+                               "thread metadata answers (nOS-V); recorder_add_pvt failing; the k-th prv_register failing",
+                      bound="global CPU list of at most 9 CPUs (<= 8 physical, <= 4 looms); one thread, one process; create -> connect -> finish once",
+                      out="what the rows show (sort/mux semantics: C20); label texts of the rows ('~CPU n') and which sort output is on which row "
+                          "(not documented); construction of the global CPU list and gindex (core_connect_and_event, C15); prv.c/prf.c themselves "
+                          "(prv_writer / prf_writer)",
+                      oracle="reference count of physical CPUs from the inputs: recorder_add_pvt once with nrows = #physical CPUs; every prv_register "
+                             "on the prv of that pvt with 0 <= row < nrows (also on paths that fail later); on success rows 0..nrows-1 each exactly once, "
+                             "carrying the nrows sort outputs each exactly once, sort module of nrows inputs each fed once by the tri of a distinct "
+                             "physical CPU and by no virtual CPU; the registered type is the one finish declares in the same pvt's pcf; prf_add names "
+                             "each index 0..nrows-1 exactly once and nothing else",
+                      assumptions=["ghost recorder_add_pvt / pvt getters / prv_register / prf_add / pcf_add_* / task_create_pcf_types (recorders)",
+                                   "ghost sort_init / sort_set_input / sort_get_output (record n, inputs; output handles never dereferenced; an index "
+                                   "outside the n allocated slots is flagged instead of written)",
+                                   "mux_init / mux_set_input / mux_set_default / chan_init / bay_register are no-ops that succeed",
+                                   "gindex = position in the global CPU list, vCPU of a loom right after its physical CPUs (system.c init_global_lists / "
+                                   "init_global_indices, shown by core_connect_and_event)"])))
 
     # ---- families 3 + 4 per model: types declared, labels present
     for m in MODELS:
